@@ -46,6 +46,7 @@ type c16StakeOpt struct {
 	pending bool // frozen funds due at blocks 2 and 3, a stake lock ending at block 2
 	noMove  bool // (with many) leave out the genesis move: moves are made by transactions only
 	extra   bool // (with many) a 102nd candidate (1500 BIP, not a validator) that ranks 101st already in the genesis
+	tie     bool // (with extra) the 102nd candidate holds exactly the 2000 BIP of candidate 4: a tie across the 100-candidate limit
 }
 
 func c16CoinStake(owner types.Address, coin uint64, v *big.Int) types.Stake {
@@ -154,7 +155,11 @@ func c16StakeGenesis(o c16StakeOpt) *types.AppState {
 		}
 		// a move towards the lowest ordinary candidate, due at block 3 (after the boundary)
 		if o.extra {
-			g.Candidate(102, Pub(400), own(4), own(4), own(4), 10, false, false, []types.Stake{Stake(C16TinyAddr(3000), e18(1500))})
+			v := e18(1500)
+			if o.tie {
+				v = e18(2000) // exactly the stake of candidate 4: ranks 100 and 101 tie, the candidate id decides
+			}
+			g.Candidate(102, Pub(400), own(4), own(4), own(4), 10, false, false, []types.Stake{Stake(C16TinyAddr(3000), v)})
 		}
 		if !o.noMove {
 			g.c16Frozen(C16StakeFirst+2, d1, &p1, 1, 0, e18(50), C16StakeManyLow)
@@ -298,6 +303,7 @@ func init() {
 			c16StakeTx("o3 sets validator c3 off", transaction.TypeSetCandidateOffline, K("vown3"), transaction.SetCandidateOffData{PubKey: Pub(3)}),
 			c16Unbond("d1 unbond 100 BIP from c1", d1, Pub(1), 0, e18(100)),
 			c16MoveStake("d1 move 100 BIP c1->lowest ordinary candidate", d1, Pub(1), low, 0, e18(100)),
+			c16Declare("d2 declares candidate 302 with 2000 BIP (ties with the 2000-BIP candidate across the 100-candidate limit)", d2, Pub(302), e18(2000)),
 		}
 	}))
 	// the 101-candidate world without the genesis move: a move made by a transaction loses its target at the boundary
@@ -312,6 +318,13 @@ func init() {
 	// a genesis document that already holds 102 candidates: the import itself removes the one ranked 101st
 	Register("stakemany102", c16StakeWorld(c16StakeOpt{nVal: 3, many: true, noMove: true, extra: true}, func(w *World) []Tx {
 		return []Tx{c16Unbond("d1 unbond 100 BIP from c1", K("d1"), Pub(1), 0, e18(100))}
+	}))
+	// 102 candidates with a tie of total stakes at ranks 100/101: which of the two is removed is decided by the id
+	Register("stakemanytie", c16StakeWorld(c16StakeOpt{nVal: 3, many: true, noMove: true, extra: true, tie: true}, func(w *World) []Tx {
+		return []Tx{
+			c16Unbond("d1 unbond 100 BIP from c1", K("d1"), Pub(1), 0, e18(100)),
+			c16Declare("d2 declares candidate 301 with 2000 BIP (a third candidate at the tied rank)", K("d2"), Pub(301), e18(2000)),
+		}
 	}))
 	Register("stakepending", c16StakeWorld(c16StakeOpt{nVal: 3, pending: true}, func(w *World) []Tx {
 		d1, d2, mal := K("d1"), K("d2"), K("mallory")
